@@ -523,6 +523,26 @@ int _vnadata_load_npd(vnadata_internal_t *vdip, FILE *fp, const char *filename)
 			VNAERR_SYNTAX) == -1) {
 		goto out;
 	    }
+
+	    /*
+	     * The saver refuses dB for values that are neither power nor
+	     * root power in NPD format: don't accept a file it would not
+	     * write.
+	     */
+	    for (int i = 0; i < vdip->vdi_format_count; ++i) {
+		const vnadata_format_descriptor_t *vfdp =
+		    &vdip->vdi_format_vector[i];
+
+		if (vfdp->vfd_format == VNADATA_FORMAT_DB_ANGLE &&
+			vfdp->vfd_parameter != VPT_UNDEF &&
+			!_VNADATA_IS_POWER(vfdp->vfd_parameter)) {
+		    _vnadata_error(vdip, VNAERR_SYNTAX, "%s (line %d) error: "
+			    "%s: dB is valid only for power and root-power "
+			    "parameters",
+			    nss.nss_filename, nss.nss_line, FIELD(&nss, 1));
+		    goto out;
+		}
+	    }
 	    parameter_line = nss.nss_line;
 	    if (scan_line(&nss) == -1) {
 		goto out;
@@ -877,6 +897,12 @@ int _vnadata_load_npd(vnadata_internal_t *vdip, FILE *fp, const char *filename)
 		    "%s: number expected",
 		    nss.nss_filename, nss.nss_line,
 		    FIELD(&nss, 0));
+	    goto out;
+	}
+	if (!(f >= 0.0) || isinf(f)) {
+	    _vnadata_error(vdip, VNAERR_SYNTAX, "%s (line %d) error: "
+		    "%s: invalid frequency value",
+		    nss.nss_filename, nss.nss_line, FIELD(&nss, 0));
 	    goto out;
 	}
 	if (vnadata_add_frequency(vdp, f) == -1) {
